@@ -480,3 +480,9 @@ def run(ctx, eng):
     ctx.assume('hyperframe delivers the frame types the model assumes')
     ctx.assume('the abstraction keeps the machine\'s flags and forgets header '
                'contents, payloads and counters')
+    cm.include(ctx, eng, 'C09', {'ARITH.lookup', 'FLOW.lookup'},
+               'idle and closed streams are told apart by the watermark of '
+               'the stream\'s own direction')
+    cm.include(ctx, eng, 'C07', {'PAIR.local-reset'},
+               'a reset the library performs itself goes through the '
+               'machine (SEND_RST_STREAM), not around it')
